@@ -30,7 +30,7 @@ def convertEntries(entries):
     return result
 
 
-def getCollectionValue(collection, what):
+def getCollectionValue(collection, what, pos=None):
     if collection.isList():
         return collection.value
     elif collection.isSet():
@@ -43,7 +43,7 @@ def getCollectionValue(collection, what):
         return convertEntries({k: collection.value[k]
                                for k in sorted(collection.value.keys())})
     elif collection.isObject() and what == "values":
-        return collection.value.values()
+        return list(collection.value.values())
     elif collection.isObject() and what == "entries":
         return convertEntries(collection.value)
     elif collection.isObject():
@@ -51,7 +51,11 @@ def getCollectionValue(collection, what):
     elif collection.isString():
         return [ch for ch in collection.value]
     else:
-        return None
+        raise CklRuntimeError(
+            ValueString("ERROR"),
+            f"Cannot iterate over {collection.type()}",
+            pos,
+        )
 
 
 def getDestructuringValues(value, count, pos):
@@ -615,6 +619,12 @@ class NodeDerefAssign:
                 raise CklRuntimeError(
                     ValueString("ERROR"), f"Index out of bounds {i}", self.pos
                 )
+            if not value.isString():
+                raise CklRuntimeError(
+                    ValueString("ERROR"),
+                    f"Expected string but got {value.type()}",
+                    self.pos,
+                )
             container.value = s[0:i] + value.value + s[i+1:]
             return container
 
@@ -689,6 +699,12 @@ class NodeDerefInvoke:
             return invoke(fn, names, args, environment, self.pos)
 
         if obj_.isMap():
+            if not obj_.hasItem(ValueString(self.member)):
+                raise CklRuntimeError(
+                    ValueString("ERROR"),
+                    f"Member {self.member} not found",
+                    self.pos,
+                )
             fn = obj_.value[ValueString(self.member)]
             if not fn.isFunc():
                 raise CklRuntimeError(
@@ -1153,10 +1169,13 @@ class NodeIn:
         elif container.isMap():
             return ValueBoolean.fromval(container.hasItem(value))
         elif container.isObject():
-            return ValueBoolean.fromval(container.hasItem(value.value))
+            return ValueBoolean.fromval(
+                value.isString() and container.hasItem(value.value)
+            )
         elif container.isString():
             return ValueBoolean.fromval(
-                container.value.find(value.value) != -1
+                value.isString()
+                and container.value.find(value.value) != -1
             )
         return FALSE
 
@@ -1262,7 +1281,7 @@ class NodeListComprehension:
         result = ValueList()
         localEnv = environment.newEnv()
         lst = self.listExpr.evaluate(environment)
-        values = getCollectionValue(lst, self.what)
+        values = getCollectionValue(lst, self.what, self.pos)
         for listValue in values:
             localEnv.put(self.identifier, listValue)
             value = self.valueExpr.evaluate(localEnv)
@@ -1341,8 +1360,8 @@ class NodeListComprehensionParallel:
         localEnv = environment.newEnv()
         list1 = self.listExpr1.evaluate(environment)
         list2 = self.listExpr2.evaluate(environment)
-        values1 = getCollectionValue(list1, self.what1)
-        values2 = getCollectionValue(list2, self.what2)
+        values1 = getCollectionValue(list1, self.what1, self.pos)
+        values2 = getCollectionValue(list2, self.what2, self.pos)
         for i in range(max(len(values1), len(values2))):
             listValue1 = values1[i] if i < len(values1) else None
             listValue2 = values2[i] if i < len(values2) else None
@@ -1432,8 +1451,8 @@ class NodeListComprehensionProduct:
         localEnv = environment.newEnv()
         list1 = self.listExpr1.evaluate(environment)
         list2 = self.listExpr2.evaluate(environment)
-        values1 = getCollectionValue(list1, self.what1)
-        values2 = getCollectionValue(list2, self.what2)
+        values1 = getCollectionValue(list1, self.what1, self.pos)
+        values2 = getCollectionValue(list2, self.what2, self.pos)
         for listValue1 in values1:
             localEnv.put(self.identifier1, listValue1)
             for listValue2 in values2:
@@ -1561,7 +1580,7 @@ class NodeMapComprehension:
         result = ValueMap()
         localEnv = environment.newEnv()
         lst = self.listExpr.evaluate(environment)
-        values = getCollectionValue(lst, self.what)
+        values = getCollectionValue(lst, self.what, self.pos)
         for listValue in values:
             localEnv.put(self.identifier, listValue)
             key = self.keyExpr.evaluate(localEnv)
@@ -1920,7 +1939,7 @@ class NodeSetComprehension:
         result = ValueSet()
         localEnv = environment.newEnv()
         lst = self.listExpr.evaluate(environment)
-        values = getCollectionValue(lst, self.what)
+        values = getCollectionValue(lst, self.what, self.pos)
         for listValue in values:
             localEnv.put(self.identifier, listValue)
             value = self.valueExpr.evaluate(localEnv)
@@ -1990,8 +2009,8 @@ class NodeSetComprehensionParallel:
         localEnv = environment.newEnv()
         list1 = self.listExpr1.evaluate(environment)
         list2 = self.listExpr2.evaluate(environment)
-        values1 = getCollectionValue(list1, self.what1)
-        values2 = getCollectionValue(list2, self.what2)
+        values1 = getCollectionValue(list1, self.what1, self.pos)
+        values2 = getCollectionValue(list2, self.what2, self.pos)
         for i in range(max(len(values1), len(values2))):
             localEnv.put(
                 self.identifier1, values1[i] if i < len(values1) else NULL
@@ -2077,8 +2096,8 @@ class NodeSetComprehensionProduct:
         localEnv = environment.newEnv()
         list1 = self.listExpr1.evaluate(environment)
         list2 = self.listExpr2.evaluate(environment)
-        values1 = getCollectionValue(list1, self.what1)
-        values2 = getCollectionValue(list2, self.what2)
+        values1 = getCollectionValue(list1, self.what1, self.pos)
+        values2 = getCollectionValue(list2, self.what2, self.pos)
         for value1 in values1:
             localEnv.put(self.identifier1, value1)
             for value2 in values2:
